@@ -105,6 +105,12 @@ claim('C14', 'differential execution of equivalent descriptions: pairs of real e
       'similarity scaling of lengths, moduli and density (line loads x e*s, frequencies x sqrt(e/q)/s).',
       'eigenvalues by scipy.linalg.eigh on active sub-matrices; "tends to" restated as a decade-wise rate and a bound at r/b=1e7', '4/C14')
 
+claim('C15', 'observation of the whole pipeline (laminate -> k0/kG0/kM -> package lb/freq or reference eigensolver) at increasing series orders, judged by min-max monotonicity and by classical closed-form values',
+      'Closed-form part: simply supported specially orthotropic plates over aspect ratios 0.2..5 and load ratios 0..3; the lowest Ritz buckling loads and frequencies at m=n=6..16 must never fall below the rank-matched '
+      'double-sine closed forms (rotary inertia included), the lowest-mode error must decrease with the order and be below 1e-6 / 1e-3 at 16 terms (<=3 / <=6 half-waves). Monotonicity part: arbitrary laminates, all four models, '
+      'restrained flag patterns: adding terms in either direction never raises any of the six lowest multipliers / frequencies.',
+      'closed forms evaluated with the independent lamination oracle; one-sided tolerance 1e-9 + 50 eps cond(K)', '4/C15')
+
 ALL = ['C%02d' % i for i in range(1, 21)]
 PENDING_REASON = 'check not built yet in this round (runtime-monitoring plan in DESIGN.md section 4); will be claimed once its monitor runs silent on the unchanged tree'
 
